@@ -261,30 +261,44 @@ func (fc *fnCtx) atPanic(st *State, fr *frame, why string, ts *TypeSpec) {
 	})
 }
 
-// runDefers applies the deferred calls of the top frame (contracts only).
+// runDefers runs the deferred calls registered on this path (last first): closures are
+// executed in place, other calls through their contracts.
 func (fc *fnCtx) runDefers(st *State, fr *frame, k func(*State)) {
-	if len(fr.defers) == 0 {
+	if len(st.defers) == 0 {
 		k(st)
 		return
 	}
+	ds := st.defers
+	st.defers = nil
 	var run func(st *State, i int)
 	run = func(st *State, i int) {
 		if i < 0 {
 			k(st)
 			return
 		}
-		d := fr.defers[i]
+		d := ds[i]
+		nf := *fr
+		nf.pan = func(st *State, why string) {
+			// a panic inside a deferred call: conservatively continue with the remaining ones
+			run(st, i-1)
+		}
+		if mc, ok := d.Common().Value.(*ssa.MakeClosure); ok && !d.Common().IsInvoke() {
+			var binds []Val
+			for _, b := range mc.Bindings {
+				binds = append(binds, fc.val(st, b))
+			}
+			fc.inlineClosure(st, &nf, fmt.Sprintf("defer%d", i+1), &closureInfo{fn: mc.Fn.(*ssa.Function), binds: binds}, fc.callArgs(st, d.Common()), func(st *State, _ Val) { run(st, i-1) })
+			return
+		}
 		spec, recv, args, resT := fc.calleeSpec(st, fr, d)
 		if spec == nil {
 			fc.e.externals["deferred call without contract in "+fr.key] = true
 			run(st, i-1)
 			return
 		}
-		nf := *fr
-		nf.pan = func(st *State, why string) {}
 		fc.applySpec(st, &nf, fmt.Sprintf("defer%d", i+1), spec, recv, args, resT, func(st *State, _ []Val) { run(st, i-1) })
 	}
-	run(st, len(fr.defers)-1)
+	run(st, len(ds)-1)
 }
 
 // checkFrame: every region changed by the function must agree with the entry
